@@ -551,11 +551,6 @@ def install(ctx):
     J = Judge(ctx)
     J.max_dirs_hess = 8 if ctx.tier == "quick" else 16
 
-    def unobserved(bound, validate=False):
-        def f(x):
-            return bound(x)
-        return f
-
     def mk_value(cls):
         def post(result, snap, self, var, *a, **kw):
             meta = J.meta_of(self)
@@ -598,8 +593,7 @@ def install(ctx):
 
     # ---- SimpleQuadraticLossFunction: documented formulas |var-ref|^2, 2(var-ref), 2I
     def sq_meta(self):
-        m = J.meta_of(self)
-        return m
+        return J.meta_of(self)
 
     def post_sq_value(result, snap, self, var, *a, **kw):
         m = sq_meta(self)
@@ -794,7 +788,7 @@ QT_TYPES = ["qst", "povmt", "qpt", "qmpt"]
 
 def shards(tier, seed):
     out = []
-    n = {"quick": 6, "thorough": 100}[tier]
+    n = {"quick": 5, "thorough": 100}[tier]
     for t in QT_TYPES:
         for flag in (True, False):
             for m in (2, 3, 4, 5):
